@@ -170,6 +170,8 @@ def spaces(tier, seed):
     sp = [Space('models', core.chunked(_model_cases(1024), 1), run_case=run_model_case, sig=sig,
                 bounds={'models': MODELS, 'dense_dim<=': 1024, 'L>=': 2, 'parameter_draws': 2})]
     for s in c05.spaces(tier, seed):
+        if s._run_chunk is not None:
+            continue        # history spaces of C05 are not chain-list programs
         sp.append(Space('chainlists_' + s.name, s.chunks, run_case=run_chain_case, expand=c05.expand, sig=sig, bounds=s.bounds))
     sp.append(Space('graphs', core.chunked(_graph_cases(tier), 200), run_case=run_graph_case, sig=sig,
                     bounds={'initial_graphs_of_C16': True, 'pre': ['none', 'flip']}))
